@@ -5,7 +5,7 @@ namespace TSSVerif.Gen.Net
 def authRejects : List String := [
   "err := h.Read(conn); err != nil",
   "NOT-REJECTING: createTime.Add(time.Second * 30).Before(now)",
-  "len(h.TLSBinding) == len(binding) && !bytes.Equal(binding[:16], h.TLSBinding[:16])",
+  "!bytes.Equal(binding, h.TLSBinding)",
   "bl == nil",
   "err != nil",
   "!isECDSA",
